@@ -214,6 +214,23 @@ pub fn gen_work(ch: &mut Chooser, kind: Kind, tier: Tier) -> Work {
     let big = tier == Tier::Thorough;
     let (w, h, d, tiles, depth) = match kind {
         Kind::D2 => {
+            // a rare large image: several root tiles of the default list,
+            // sizes beyond 128 and 256 ("all image sizes")
+            if ch.odds("large_image", 1, 50) {
+                let w = 100 + ch.choose("w_large", 221);
+                let h = if ch.odds("square", 1, 4) {
+                    w
+                } else {
+                    100 + ch.choose("h_large", 221)
+                };
+                let tiles = match ch.choose("tiles_large", 4) {
+                    0 => None,
+                    1 => Some(vec![64, 16, 4]),
+                    2 => Some(vec![128, 32, 8]),
+                    _ => Some(vec![32, 8, 2]),
+                };
+                (w, h, 0, tiles, 0)
+            } else {
             let lim = if big { 96 } else { 56 };
             let w = 1 + ch.choose("w", lim);
             let h = if ch.odds("square", 1, 4) {
@@ -227,8 +244,22 @@ pub fn gen_work(ch: &mut Chooser, kind: Kind, tier: Tier) -> Work {
                 Some(ch.pick("tiles", TILES_2D).to_vec())
             };
             (w, h, 0, tiles, 0)
+            }
         }
         Kind::D3 => {
+            if ch.odds("large_image", 1, 150) {
+                // rare large grid: several root tiles of the default list
+                let w = 50 + ch.choose("w_large", 91);
+                let h = 50 + ch.choose("h_large", 91);
+                let d = 20 + ch.choose("d_large", 61);
+                let tiles = match ch.choose("tiles_large", 4) {
+                    0 => None,
+                    1 => Some(vec![64, 16, 8]),
+                    2 => Some(vec![32, 8]),
+                    _ => Some(vec![24, 12, 4]),
+                };
+                (w, h, d, tiles, 0)
+            } else {
             let lim = if big { 36 } else { 24 };
             let w = 1 + ch.choose("w", lim);
             let h = 1 + ch.choose("h", lim);
@@ -239,6 +270,7 @@ pub fn gen_work(ch: &mut Chooser, kind: Kind, tier: Tier) -> Work {
                 Some(ch.pick("tiles", TILES_3D).to_vec())
             };
             (w, h, d, tiles, 0)
+            }
         }
         Kind::Mesh => {
             let depth = 1 + ch.choose("depth", if big { 5 } else { 4 }) as u8;
